@@ -152,6 +152,25 @@ func TestC08(t *testing.T) {
 	cfg := rsGenCfg{Rules: rc, Vary: true}
 	check(t, 0, budget(800, 10000), func(rt *rapid.T) {
 		base, rs := genRSCase(rt, cfg)
+		// a quarter of the rule sets have a rule whose condition is (or starts with) a bare top-level variable
+		// whose kind differs from call to call: a boolean in one call, a string or a number in another
+		varKind := rapid.IntRange(0, 3).Draw(rt, "condition_of_varying_kind") == 0
+		if varKind {
+			r := base.Rules[rapid.IntRange(0, len(base.Rules)-1).Draw(rt, "varying_rule")]
+			if rapid.Bool().Draw(rt, "varying_alone") {
+				r.When = gast.P("TV")
+			} else {
+				r.When = &gast.Bin{Op: gast.OpAnd, L: gast.P("TV"), R: &gast.Paren{X: r.When}}
+			}
+			c14Rerender(base)
+			rs.Feat["condition_whose_kind_depends_on_the_facts"]++
+		}
+		drawTV := func(rt *rapid.T, st *facts.State) {
+			if varKind {
+				st.Top["TV"] = rapid.SampledFrom([]interface{}{true, true, false, "yes", int64(3)}).Draw(rt, "TV")
+			}
+		}
+		drawTV(rt, base.Init)
 		prep, err := val.Prepare(base)
 		if err != nil {
 			rt.Fatalf("harness: %v\n%s", err, base.Text)
@@ -166,6 +185,7 @@ func TestC08(t *testing.T) {
 		step := func(op string) func(*rapid.T) {
 			return func(rt *rapid.T) {
 				st := c08Step{Op: op, Init: c08GenState(rt, rs, rc.State), MaxCycle: 30}
+				drawTV(rt, st.Init)
 				// a call does not have to supply every fact an earlier call supplied: a quarter of the calls
 				// leave out the JSON fact and/or some top-level variables (rules that mention them then fail
 				// to evaluate in this call, on a new instance as on the reused one)
